@@ -225,11 +225,8 @@ def run(tier, seed):
     for name, b in gen:
         cases_.append((name, b, rnd.choice(EXTS[:2]), [rnd.choice(FMTS)]))
     # delimiter soup: every ordered pair of inline delimiters as "a x b", "a x b x a" and "a b a" -- the four pairing passes meet every delimiter inside every other
-    DEL = ["`", "``", "\'\'", "\'", "\"", "*", "**", "_", "[", "]", "(", ")", "<", ">", "$", "$$", "^", "~", "{++", "++}", "{--", "--}", "\\\\(", "[^", "[#", "<<", ">>"]
-    for a in DEL:
-        for b2 in DEL:
-            for k, d in enumerate(("%s x = %s end" % (a, b2), "%sx = %s %s" % (a, b2, a), "%s%s%s y" % (a, b2, a))):
-                cases_.append(("soup", (d + "\n").encode(), docs.STD if k != 1 else EXTS[(len(a) + len(b2)) % 3], ["html"] if k else ["latex"]))
+    for k, a, b2, d in docs.delimiter_soup():
+        cases_.append(("soup", d.encode(), docs.STD if k != 1 else EXTS[(len(a) + len(b2)) % 3], ["html"] if k else ["latex"]))
     segs = []
     per = 12
     for i in range(0, len(cases_), per):
